@@ -114,7 +114,10 @@ Definition split_blocks (data : list N) (h : shdr) (complete : bool) : list sblo
   number_blocks h complete 0 (Z.of_nat (length cs)) cs.
 
 (* ---------------- reassembly: Protocol._add_message_block ---------------- *)
-Definition rstate := list (Z * list sblock).        (* _incomplete_messages, keyed by system bytes *)
+Definition rstate := list (Z * list sblock).        (* _incomplete_messages, keyed by (system bytes, stream, function, W-bit) - as one number *)
+(* the key of _incomplete_messages: the blocks of a message agree in system bytes, stream, function and W-bit (D65); the four fields
+   (32, 7, 8 bits and one bit) are written side by side *)
+Definition msg_key (h : shdr) : Z := s_system h + 4294967296 * (s_stream h + 128 * (s_function h + 256 * (if s_w h then 1 else 0))).
 Fixpoint rs_lookup (k : Z) (s : rstate) : option (list sblock) :=
   match s with [] => None | (k', v) :: r => if k =? k' then Some v else rs_lookup k r end.
 Fixpoint rs_set (k : Z) (v : list sblock) (s : rstate) : rstate :=
@@ -133,7 +136,7 @@ Definition msg_data (bl : list sblock) : list N := List.concat (map sb_data bl).
 (* a block numbered 0 or 1 starts a message: blocks kept from an attempt that was never completed are dropped *)
 Definition starts_message (b : sblock) : bool := (s_block (sb_hdr b) =? 0) || (s_block (sb_hdr b) =? 1).
 Definition add_block (s : rstate) (b : sblock) : rstate * option (shdr * list N) :=
-  let k := s_system (sb_hdr b) in
+  let k := msg_key (sb_hdr b) in
   let bl := match rs_lookup k s with
             | None => split_blocks (sb_data b) (sb_hdr b) false       (* message_type.from_block(block) *)
             | Some old => if starts_message b then split_blocks (sb_data b) (sb_hdr b) false else old ++ [b]
